@@ -670,3 +670,95 @@ Section BodyClause.
     unfold is_breaking, mk_diff, add_diff. cbn [d_compat d_loc d_code]. rewrite Rc2, Rcl. vm_compute. reflexivity.
   Qed.
 End BodyClause.
+
+(* ---------- one level into a schema: a property the new schema no longer has (response bodies: C13's response side) ---------- *)
+Lemma sort_kv_in_rev {A} (l : list (str * A)) e : In e l -> In e (sort_kv l).
+Proof.
+  assert (forall (x : str * A) l0 e0, e0 = x \/ In e0 l0 -> In e0 (insert_kv x l0)) as INS.
+  { intros x l0. induction l0 as [|y r IH]; intros e0 H; cbn [insert_kv].
+    - destruct H as [->|[]]. left. reflexivity.
+    - destruct (str_leb (fst x) (fst y)).
+      + destruct H as [->|H]; [left; reflexivity | right; exact H].
+      + destruct H as [->|[->|H]]; [right; apply IH; left; reflexivity | left; reflexivity | right; apply IH; right; exact H]. }
+  induction l as [|x r IH]; intros H; [contradiction|]. cbn [sort_kv fold_right]. apply INS.
+  destruct H as [->|H]; [left; reflexivity | right; apply IH, H].
+Qed.
+
+Theorem compare_schema_deleted_property d1 d2 f l x1 x2 sta ds sta' :
+  is_ref x1 = false -> is_ref x2 = false -> sc_allof x1 = [] -> sc_allof x2 = [] ->
+  compare_props x1 x2 = Ok [] -> is_array_type (sc_typ x1) = false ->
+  compare_schema f d1 d2 l x1 x2 sta = Ok (ds, sta') ->
+  forall name sc1, In (name, sc1) (sc_props x1) -> has_key name (sc_props x2) = false ->
+  exists cl, l_response cl = l_response l /\ In (mk_diff cl DeletedProperty []) ds.
+Proof.
+  intros R1 R2 A1 A2 CP NA H name sc1 Hin HK.
+  destruct f as [|f]; [discriminate|]. cbn [compare_schema] in H.
+  unfold check_ref_change in H. rewrite R1, R2 in H. cbn [andb Bool.eqb bind nonempty] in H.
+  rewrite CP in H. cbn [bind nonempty] in H. rewrite NA in H. cbn [bind] in H.
+  assert (nonempty (sc_props x1) = true) as NE by (destruct (sc_props x1); [contradiction | reflexivity]).
+  rewrite NE in H. cbn [negb andb] in H.
+  destruct f as [|f]; [discriminate|].
+  rewrite (properties_for_plain d1 f x1 sta R1 A1) in H. cbn [bind fst snd] in H.
+  rewrite (properties_for_plain d2 f x2 sta R2 A2) in H. cbn [bind fst snd] in H.
+  assert (assoc name (own_props x2) = None) as AN.
+  { apply assoc_None_keys. unfold own_props, keys. rewrite map_map. cbn [fst]. intros X.
+    assert (has_key name (sc_props x2) = true) as Y by (apply has_key_keys; exact X). congruence. }
+  match type of H with bind (?F (sort_kv (own_props x1)) sta) _ = _ =>
+    assert (forall ps sa r, F ps sa = Ok r -> forall rq, In (name, (sc1, rq)) ps ->
+            exists cl, l_response cl = l_response l /\ In (mk_diff cl DeletedProperty []) (fst r)) as LOOP end.
+  { induction ps as [|[n0 [s0 q0]] rest IHp]; intros sa r Hr rq Hi; [contradiction|].
+    match type of Hr with bind ?X _ = _ => destruct X as [cl| |] eqn:Ecl end; cbn [bind] in Hr; try discriminate.
+    destruct Hi as [Eq|Hi].
+    - inversion Eq; subst n0 s0 q0. rewrite AN in Hr. cbn [bind fst snd] in Hr.
+      match type of Hr with bind ?X _ = _ => destruct X as [[rd rs]| |] eqn:Erest end; cbn [bind fst snd] in Hr; try discriminate.
+      inversion Hr; subst r. exists cl. split; [|left; reflexivity].
+      unfold add_child_node in Ecl. destruct (type_of_props sc1); cbn [bind] in Ecl; try discriminate. inversion Ecl. reflexivity.
+    - match type of Hr with bind ?X _ = _ => destruct X as [[hd hs]| |] eqn:Eh end; cbn [bind fst snd] in Hr; try discriminate.
+      match type of Hr with bind ?X _ = _ => destruct X as [[rd rs]| |] eqn:Erest end; cbn [bind fst snd] in Hr; try discriminate.
+      destruct (IHp _ _ Erest rq Hi) as [cl2 [Rc Hc]]. inversion Hr; subst r. exists cl2. split; [exact Rc|].
+      cbn [fst]. apply in_or_app. right. exact Hc. }
+  match type of H with bind ?X _ = _ => destruct X as [[cd cs]| |] eqn:Ec end; cbn [bind] in H; try discriminate.
+  assert (In (name, (sc1, mem name (sc_required x1))) (sort_kv (own_props x1))) as Hs.
+  { apply sort_kv_in_rev. unfold own_props. apply in_map_iff. exists (name, sc1). split; [reflexivity | exact Hin]. }
+  destruct (LOOP _ _ _ Ec _ Hs) as [cl [Rc Hc]]. cbn [fst] in Hc.
+  match type of H with bind ?X _ = _ => destruct X as [ad| |] eqn:Ea end; cbn [bind] in H; try discriminate.
+  inversion H; subst ds. exists cl. split; [exact Rc|]. rewrite !in_app_iff. tauto.
+Qed.
+
+Lemma analyse_response_body fuel d1 d2 k c r1 r2 sta out sta' x1 x2 :
+  analyse_response fuel d1 d2 k c r1 r2 sta = Ok (out, sta') -> r_schema r1 = Some x1 -> r_schema r2 = Some x2 ->
+  exists n bd sb, compare_schema fuel d1 d2 (resp_loc k c n) x1 x2 sta = Ok (bd, sb) /\ incl bd out.
+Proof.
+  unfold analyse_response. intros H S1 S2. rewrite S1, S2 in H.
+  stepb H. stepb H. stepb H. cbn [bind] in H.
+  match type of H with bind ?X _ = _ => destruct X as [[bd sb]| |] eqn:Ecs end; cbn [bind fst snd] in H; try discriminate.
+  inversion H; subst out sta'. exists a1, bd, sb. split; [exact Ecs|].
+  intros x Hx. rewrite !in_app_iff. tauto.
+Qed.
+
+Section ResponseBodyClause.
+  Variables (fuel : nat) (a b : swagger) (ds : list sdiff).
+  Hypothesis Hrun : analyse fuel a b = Ok ds.
+  Variables (k : str * str) (pit1 pit2 : pathitem) (op1 op2 : operation).
+  Hypothesis Hin2 : In (k, (pit2, op2)) (url_methods b).
+  Hypothesis Hin1 : find_um k (url_methods a) = Some (pit1, op1).
+
+  (* 9. a response body (inline object schemas without allOf whose own keywords agree) loses a property *)
+  Theorem doc_response_property_removed c r1 r2 x1 x2 name sc1 :
+    In (c, r2) (o_responses op2) -> assocZ c (o_responses op1) = Some r1 ->
+    r_schema r1 = Some x1 -> r_schema r2 = Some x2 ->
+    is_ref x1 = false -> is_ref x2 = false -> sc_allof x1 = [] -> sc_allof x2 = [] ->
+    compare_props x1 x2 = Ok [] -> is_array_type (sc_typ x1) = false ->
+    In (name, sc1) (sc_props x1) -> has_key name (sc_props x2) = false ->
+    reports_breaking ds.
+  Proof.
+    intros Hc HS S1 S2 R1 R2 A1 A2 CP NA Hp HK.
+    destruct (response_cover_ds fuel a b ds Hrun k pit1 pit2 op1 op2 Hin2 Hin1) as [_ C].
+    destruct (C c r2 r1 Hc HS) as [sa [o [sb [He Ho]]]].
+    destruct (analyse_response_body _ _ _ _ _ _ _ _ _ _ _ _ He S1 S2) as [n [bd [sb2 [Hcs Hi]]]].
+    destruct (compare_schema_deleted_property _ _ _ _ _ _ _ _ _ R1 R2 A1 A2 CP NA Hcs name sc1 Hp HK) as [cl [Rc Hin]].
+    apply (reports_breaking_in cl DeletedProperty []); [apply Ho, Hi, Hin|].
+    unfold is_breaking, mk_diff, add_diff. cbn [d_compat d_loc d_code]. rewrite Rc. unfold resp_loc. cbn [l_response].
+    destruct (Z.ltb 0 c); vm_compute; reflexivity.
+  Qed.
+End ResponseBodyClause.
